@@ -76,6 +76,17 @@ theorem cutFrames_framed {p : Prog} {F : List Int} (hF : Framed p F) :
 
 /-! ## composing deliveries -/
 
+theorem map_eq_flatMap_singleton {α β : Type} (f : α → β) (l : List α) : l.map f = l.flatMap (fun x => [f x]) := by
+  induction l with
+  | nil => rfl
+  | cons x xs ih => simp [ih]
+
+theorem flatMap_singleton_id {α : Type} (l : List α) : l.flatMap (fun x => [x]) = l := by
+  induction l with
+  | nil => rfl
+  | cons x xs ih => simp [ih]
+
+
 theorem Delivers.of_reach {X : Setup} {b : Nat} {T S S' : List Int} {C0 : List (Nat × Nat × Nat)} {rs : List St}
     {s s' : VMState} (h : Reach X.p X.env s s') (h2 : Delivers X b T S S' C0 rs s') : Delivers X b T S S' C0 rs s := by
   cases rs with
@@ -93,29 +104,28 @@ theorem Delivers.of_step {X : Setup} {b : Nat} {T S S' : List Int} {C0 : List (N
 theorem Delivers.append {X : Setup} {b : Nat} {T S S' Sm : List Int} {C0 C1 : List (Nat × Nat × Nat)}
     {F : List Int} (hF : Framed X.p F) {ys : List St} :
     ∀ (xs : List St) (s : VMState), Delivers X b (F ++ T) Sm S' C1 xs s →
-      (∀ s'', FailAt X (F ++ T) Sm C1 s'' → Delivers X b T S S' C0 ys s'') →
+      (∀ s'' v, FailAt X (F ++ T ++ [v]) Sm C1 s'' → Delivers X b T S S' C0 ys s'') →
       Delivers X b T S S' C0 (xs ++ ys) s := by
   intro xs
   induction xs with
   | nil =>
     intro s h1 h2
-    obtain ⟨s', hr, hf⟩ := h1
-    exact Delivers.of_reach hr (h2 s' hf)
+    obtain ⟨s', hr, v, hf⟩ := h1
+    exact Delivers.of_reach hr (h2 s' v hf)
   | cons r xs ih =>
     intro s h1 h2
     obtain ⟨F2, hF2, hl, hk⟩ := h1
     refine ⟨F2 ++ F, hF2.append hF, ?_, ?_⟩
-    · rw [List.append_assoc]; exact hl
-    · intro s'' hf
-      rw [List.append_assoc] at hf
-      exact ih s'' (hk s'' hf) h2
+    · simpa only [List.append_assoc] using hl
+    · intro s'' v hf
+      exact ih s'' (hk s'' v (by simpa only [List.append_assoc] using hf)) h2
 
 /-- sequencing: every success of the first fragment (ending at `mid`) is continued by the second fragment
     (ending at `b`), entered above the first one's frames -/
 theorem Delivers.bind {X : Setup} {mid b : Nat} {T S Sm S' : List Int} {C0 : List (Nat × Nat × Nat)}
     {g : St → List St} :
     ∀ (rs : List St) (s : VMState), Delivers X mid T S Sm C0 rs s →
-      (∀ r ∈ rs, ∀ (F : List Int) (s' : VMState), Framed X.p F → Entry X mid r.pos (F ++ T) Sm r.caps s' →
+      (∀ r ∈ rs, ∀ (F : List Int) (s' : VMState) (v : Int), Framed X.p F → Entry X mid r.pos (F ++ T ++ [v]) Sm r.caps s' →
         Delivers X b (F ++ T) Sm S' r.caps (g r) s') →
       Delivers X b T S S' C0 (rs.flatMap g) s := by
   intro rs
@@ -123,24 +133,35 @@ theorem Delivers.bind {X : Setup} {mid b : Nat} {T S Sm S' : List Int} {C0 : Lis
   | nil => intro s h1 _; exact h1
   | cons r rs ih =>
     intro s h1 h2
-    obtain ⟨F, hF, ⟨s', hr, he⟩, hk⟩ := h1
+    obtain ⟨F, hF, ⟨s', hr, v, he⟩, hk⟩ := h1
     rw [List.flatMap_cons]
     refine Delivers.of_reach hr ?_
-    refine Delivers.append hF (g r) s' (h2 r (by simp) F s' hF he) ?_
-    intro s'' hf
-    exact ih s'' (hk s'' hf) (fun r' hr' => h2 r' (by simp [hr']))
+    refine Delivers.append hF (g r) s' (h2 r (by simp) F s' v hF he) ?_
+    intro s'' v' hf
+    exact ih s'' (hk s'' v' hf) (fun r' hr' => h2 r' (by simp [hr']))
 
 /-- a fragment with exactly one success and no frames of its own -/
 theorem Delivers.single {X : Setup} {b : Nat} {T S : List Int} {C0 : List (Nat × Nat × Nat)} {r : St} {s : VMState}
-    (h : Leads X s (Entry X b r.pos T S C0)) (hc : r.caps = C0) : Delivers X b T S S C0 [r] s := by
-  refine ⟨[], Framed.nil, by simpa [hc] using h, ?_⟩
-  intro s'' hf
+    {v : Int} (h : Leads X s (Entry X b r.pos (T ++ [v]) S C0)) (hc : r.caps = C0) : Delivers X b T S S C0 [r] s := by
+  refine ⟨[], Framed.nil, h.mono (fun t ht => ⟨v, by simpa [hc] using ht⟩), ?_⟩
+  intro s'' v' hf
   rw [hc] at hf
-  exact Leads.here (by simpa using hf)
+  exact Leads.here ⟨v', by simpa using hf⟩
 
 theorem Delivers.cast {X : Setup} {b b' : Nat} {T S S' : List Int} {C0 : List (Nat × Nat × Nat)} {rs rs' : List St}
     {s : VMState} (h : Delivers X b T S S' C0 rs s) (hb : b = b') (hr : rs = rs') : Delivers X b' T S S' C0 rs' s := by
   subst hb; subst hr; exact h
+
+/-- a failure, with the bottom slot it leaves -/
+theorem Delivers.fail {X : Setup} {b : Nat} {T S S' : List Int} {C0 : List (Nat × Nat × Nat)} {s : VMState} {v : Int}
+    (h : Leads X s (FailAt X (T ++ [v]) S C0)) : Delivers X b T S S' C0 [] s :=
+  h.mono (fun t ht => ⟨v, ht⟩)
+
+/-- a success followed by the rest: the shape of `Delivers` on a non-empty list -/
+theorem Delivers.cons {X : Setup} {b : Nat} {T S S' : List Int} {C0 : List (Nat × Nat × Nat)} {r : St} {rs : List St}
+    {s : VMState} {v : Int} (F : List Int) (hF : Framed X.p F) (h : Leads X s (Entry X b r.pos (F ++ T ++ [v]) S' r.caps))
+    (hk : ∀ s'' v', FailAt X (F ++ T ++ [v']) S' r.caps s'' → Delivers X b T S S' C0 rs s'') :
+    Delivers X b T S S' C0 (r :: rs) s := ⟨F, hF, h.mono (fun t ht => ⟨v, ht⟩), hk⟩
 
 /-! ## captures -/
 
